@@ -18,6 +18,9 @@ FLOOR = -99
 MARK = "m"
 TAG = "t"
 EPS = 0.25
+# evaluated at import time: some arithmetic mutants of this line make the module fail to import
+_TABLE = (3, 5, 7)
+PICK = _TABLE[LIMIT - 10]
 
 
 class Record:
@@ -66,3 +69,9 @@ def spread(seed: int) -> int:
     if r.v > 2:
         return r.w + LIMIT
     return r.u * FACTOR + OFFSET
+
+
+def picked(x: int) -> int:
+    if x > PICK:
+        return x - PICK
+    return PICK
